@@ -361,7 +361,39 @@ func c11(c *core.Ctx) {
 			}
 			c.Check(key, "validated-use", ok, s.Instr.Pos(), "votes %s delta reaches SetVotes: the delta must be proven ≥ 0 (Add) or the operands/result must be compared first", map[string]string{"Sub": "−", "Add": "+"}[op.name])
 		}
-		c.Exactly("arithmetic-SetVotes-sites", n, 4)
+		c.Floor("arithmetic-SetVotes-sites", n, 2)
+		// every other write of a count is relative too: outside the journal (package account) a SetVotes argument is computed from
+		// GetVotes of the same account, or the site is one of the listed absolute writes (the count has no other contributors there)
+		absolute := map[string]string{
+			"(*transaction.CandidateVoteEnv).registerCandidate":   "first registration: nobody can have voted for an account that is not a candidate yet (CallVoteTx refuses non-candidates), the count starts at the deposit votes",
+			"(*transaction.CandidateVoteEnv).unRegisterCandidate": "unregistering: the count is zeroed together with the isCandidate flag (C11.3)",
+			"(*chain.Genesis).initCandidateListInfo":              "genesis deputies start at zero",
+		}
+		nRel, nAbs := 0, 0
+		absSeen := map[string]int{}
+		for _, s := range c.CallSites(acc("SetVotes")) {
+			if isTestHelper(c, s.Caller) || core.RelPkg(s.Caller) == "chain/account" {
+				continue
+			}
+			account := recvValue(s.Instr)
+			rel := false
+			for w := range core.Slice(callArgs(s.Instr)[0]) {
+				if ci, ok := w.(ssa.CallInstruction); ok && core.SameFamily(core.CalleeObj(ci), acc("GetVotes")) && core.Derived(account)[recvValue(ci)] {
+					rel = true
+				}
+			}
+			if rel {
+				nRel++
+				continue
+			}
+			nAbs++
+			name := shortFn(core.Outer(s.Caller))
+			absSeen[name]++
+			reason, listed := absolute[name]
+			c.Check("SetVotes:relative-or-listed@"+name+seqSuffix(absSeen[name]), "value-flow", listed && absSeen[name] == 1, s.Instr.Pos(), "%s writes a vote count that is not computed from the account's current count (GetVotes of the same account): an absolute write drops what the voters contributed; listed=%v: %s", name, listed, reason)
+		}
+		c.Floor("relative-SetVotes-sites", nRel, 3)
+		c.Note("SetVotes sites outside the journal: %d relative, %d absolute (listed)", nRel, nAbs)
 		// sibling: SetBalance has the guard SetVotes lacks (recorded so that the contrast is part of the evidence)
 		sv := c.Fn("chain/account.Account.SetVotes")
 		has := false
